@@ -126,8 +126,8 @@ def enc_apply(enc, v):
     if enc == "id":
         return v
     if enc == "int":
-        if isinstance(v, int):
-            return v
+        if isinstance(v, (int, float)):
+            return int(v)
         s = v.s if isinstance(v, Cat) else v
         if isinstance(s, str):
             return int(s) if INT_RE.match(s) else ErrCell("ValueError")
@@ -139,21 +139,21 @@ def enc_apply(enc, v):
             return ErrCell("unmodelled")
         return str(v)
     if enc == "inc":
-        return v + 1 if isinstance(v, int) else ErrCell("TypeError")
+        return v + 1 if isinstance(v, (int, float)) else ErrCell("TypeError")
     if enc == "dbl":
-        if isinstance(v, int):
+        if isinstance(v, (int, float)):
             return v * 2
         if isinstance(v, Cat):
             return v.s * 2
         if isinstance(v, (str, tuple)):
             return v * 2
         return ErrCell("TypeError")
-    if enc == "anum":
-        if isinstance(v, int):
-            return v
+    if enc == "anum":       # float(): the tokens are integer literals, the value is an integer-valued float
+        if isinstance(v, (int, float)):
+            return float(v)
         s = v.s if isinstance(v, Cat) else v
         if isinstance(s, str):
-            return int(s) if INT_RE.match(s) else ErrCell("ValueError")
+            return float(int(s)) if INT_RE.match(s) else ErrCell("ValueError")
         return ErrCell("TypeError")
     if enc == "astr":
         return None if v == "?" else v
@@ -195,7 +195,7 @@ def enc_zero_nonzero(enc):
     r = enc_apply(enc, "0")
     if isinstance(r, ErrCell):
         return False
-    return not (isinstance(r, int) and r == 0)
+    return not (isinstance(r, (int, float)) and r == 0)
 
 
 # ------------------------------------------------------------------ eager model (plain lists / dicts)
@@ -1045,7 +1045,7 @@ def enc_for(rng, ctype):
     if ctype == "int":
         return rng.wchoice([(3, "inc"), (3, "dbl"), (2, "str"), (2, "id"), (2, "int")])
     if ctype == "flt":
-        return rng.wchoice([(3, "inc"), (3, "dbl"), (2, "id"), (2, "int")])
+        return rng.wchoice([(3, "inc"), (3, "dbl"), (2, "id"), (2, "int"), (2, "str")])
     if ctype == "word":
         return rng.wchoice([(3, "id"), (3, "dbl"), (2, "str"), (1, "int")])
     if ctype.startswith("cat"):
@@ -1066,10 +1066,11 @@ class C13(Property):
             "EncodeRows(sequence|mapping by index/name), DropRows(columns by index/name, row predicate missing|cell==v), LabelRows(index|name), "
             "EncodeCatRows(onehot|onehot_tuple|string|None); 3-10 accesses (position incl. len and len+1, name, iter, len, keys, items, copy, "
             "headers, == same/reflected/lazy/perturbed, label, tipe, feats.<access>) on one row, the same accesses permuted and then repeated "
-            "on a fresh copy; non-trivial = at least one stage or a lazy base, and at least 3 accesses with an eager value; distinct by canonical JSON")
+            "on a fresh copy; in 45 % of the cases the SAME filter objects then process one or two further tables (the first table with columns permuted / "
+            "one removed / one added, headers and base encoders moving with their column, or converted dense<->sparse), each judged against its own eager model; non-trivial = at least one stage or a lazy base, and at least 3 accesses with an eager value; distinct by canonical JSON")
     trusted_base = [
         "cells are small ints, decimal-integer strings, short words, '?', '', None and Categoricals; float() of ARFF numerics is modelled on "
-        "integer literals only (the value is compared as an exact rational)",
+        "integer literals only (an integer-valued float: equal to the int, str() gives 'N.0'; compared as an exact rational)",
         "the table is rectangular and column-typed (the *Rows filters derive their arguments from the first row; the model derives them from the observed row itself)",
         "ARFF text parsing itself (tokenising, dialect detection) belongs to C12; here ArffReader only sees simple comma/space separated tokens",
         "exceptions are compared by presence (raised / not raised), not by class",
@@ -1405,10 +1406,17 @@ class C13(Property):
         stages = case["stages"]
         has_enccat = any(st["op"] == "enccat" and st.get("t") for st in stages)
         mode = rng.wchoice([(5, "permute"), (2, "narrow"), (3, "widen"), (3, "convert"), (1, "same")])
-        if mode == "convert" and has_enccat:
-            mode = "permute"
-        fresh = [n for n in NAMES + ["z"] if n not in json.dumps(case)]
-        newname = fresh[0] if fresh else "zz%d" % rng.below(100)
+        str_map = any(st["op"] == "head" and "map" in st and any(not isinstance(k, int) for _, k in st["map"]) for st in stages)
+        if mode == "convert" and (has_enccat or (kind == "sparse" and str_map)):
+            mode = "permute"    # EncodeCatRows' own limits on dicts / a name->name header mapping is not meaningful for a dense table
+        used = set(base.get("hdr") or []) | set(c["name"] for c in base.get("cols") or [])
+        if kind == "sparse":
+            used |= set(k for r in rows for k, _ in r)
+        for st in stages:
+            if st["op"] == "head":
+                used |= set(st.get("names") or [p[0] for p in st["map"]])
+        fresh = [n for n in "abcdefghijklmnopqrstuvwxyz" if n not in used]
+        newname = rng.choice(fresh[:6])
         if kind == "dense":
             n = len(rows[0]) if rows else 0
             names = base.get("hdr") if base.get("hdr") is not None else ([c["name"] for c in base["cols"]] if base["wrap"] == "arff" else None)
@@ -1745,6 +1753,10 @@ class C13(Property):
                             # (zip / compress / islice stop early) is not modelled; whole-row accesses are not compared then
                             tags.append("A-skipped-partial-iteration")
                             continue
+                        if et is None and acc["a"] == "feats" and leaf(acc)["a"] in ("len", "eq"):
+                            # a label column beyond the end of a (zero-width) row: Python's len() rejects DropOne's negative length; not modelled
+                            tags.append("A-skipped-feats-of-invalid-label")
+                            continue
                         if suspended(case, acc, exps[j]):
                             tags.append("A-suspended-access:" + leaf(acc)["a"])
                             continue
@@ -1861,6 +1873,8 @@ def cell_to_model(v):
         return {"cat": v.s, "lv": list(v.lv)}
     if isinstance(v, tuple):
         return {"tup": list(v)}
+    if isinstance(v, float):
+        return int(v)       # compared by == : the integer of equal value
     return v
 
 
